@@ -53,7 +53,7 @@ def val_for(r, cls, name, present):
     if n == 'indent_by':
         return r.choice(['  ', '\t', ' ']) if present else '    '
     if n in ('leading_comment', 'trailing_comment'):
-        return r.choice(['c', 'two\nlines', '']) if present else None
+        return r.choice(['c', 'two\nlines', '', 'a\n \nb', ' ', 'x\n\t\ny', 'tail\n']) if present else None
     if n == 'inline_comment':
         return r.choice(['x', '', 'a;b']) if present else None
     if n == 'meta':
